@@ -251,6 +251,12 @@ def r3_dump_defaults(P, rep, ctx):
         h = t.handlers
         ok = "super().parse_raw" in body_calls and "parse_yaml_raw_as" not in body_calls and len(h) == 1 and norm(h[0].type) == "ValidationError" and any("parse_yaml_raw_as(cls, dat)" in norm(b) for b in h[0].body)
     rep.check(ok, "C12.R3", f.qual, "parse_raw tries JSON (pydantic) first and YAML only on ValidationError", f.loc(), construct="parse_raw order", message="parse_raw does not try the JSON parser first with YAML as ValidationError fallback")
+    from .common import require_total
+
+    for q in ("parse_raw", "dict", "json", "json_dict", "yaml", "__bytes__", "parse_file"):
+        require_total(rep, ctx, "C12.R3", P.func(f"{B}.BaseModelPlus.{q}"))
+    for q in ("schema.parser.run_parser", "schema.encoder._dynamize_encoder", "schema.encoder.json_encoder", "schema.core.SchemaBase.override_consts"):
+        require_total(rep, ctx, "C12.R3", P.func(q))
     f = P.func(f"{B}.BaseModelPlus.yaml")
     rets = [norm(x.value) for x in walk_local(f.node) if isinstance(x, ast.Return)]
     rep.check(rets == ["to_yaml_str(self)"], "C12.R3", f.qual, "yaml() serialises the model itself", f.loc(), construct="yaml()", message=f"yaml() returns {rets}")
